@@ -13,6 +13,7 @@ package base
 // A new buffer is an empty file with cursor 0.
 //@ func NewBufferReadWriter
 //@   ensures result != nil && fresh(result) && result.buf != nil && result.offset == 0
+//@   ensures empty_file: len(result.buf.buf) == 0
 
 // write(fd, p): bytes land at the cursor, the cursor advances by len(p), the size becomes
 // max(size, cursor+len(p)), a gap (cursor beyond the end) reads as zeros.
